@@ -212,6 +212,7 @@ type Exchange struct {
 	closedReq       bool
 	ClosedReqStep   int // scheduler step at which the transport closed the request body (-1: never)
 	RespReturned    bool
+	TrailerOverflow bool      // HTTP/1.1: the trailer block exceeded what net/http's client accepts
 	ServeStart      time.Time // fake time at which ServeHTTP was entered
 	HandlerDoneStep int
 
@@ -562,7 +563,23 @@ func (e *Exchange) finishHandler() {
 		}
 	}
 	e.Trailer = tr
-	if e.FailedWrite {
+	if !e.Call.K.HTTP2 {
+		// net/http's HTTP/1.1 client refuses a chunked trailer block that does
+		// not fit its 4 KiB read buffer (calibrated against the real transport)
+		size := 2
+		for k, vs := range tr {
+			for _, v := range vs {
+				size += len(k) + 2 + len(v) + 2
+			}
+		}
+		if size > 4096 {
+			e.TrailerOverflow = true
+		}
+	}
+	if e.TrailerOverflow {
+		e.Trailer = nil
+		e.Down.Finish(errors.New("http: suspiciously long trailer after chunked body"))
+	} else if e.FailedWrite {
 		// the connection broke while the handler was writing: the client never
 		// sees a clean end of the body, nor trailers
 		e.Trailer = nil
